@@ -442,7 +442,7 @@ def concrete_entries():
     def ent_misc(what):
         q = ro(np.array([[0.3, 0.1, 0.2], [0.0, 0.0, 0.0], [0.0, 0.0, -1.5], [1.0, 1.0, -1.0]]))
         c = ro(np.array([0.0, 0.0, 0.0]))
-        th, ph = ro(np.array([0.3, 1.2, 4.0])), ro(np.array([0.0, 1.0, np.pi]))
+        th, ph = ro(np.array([0.3, 1.2, 4.0, -1.0, 2.2])), ro(np.array([0.0, 1.0, np.pi, -0.5, 4.0]))      # incl. polar angles outside [0, pi]
         sph = ro(np.array([[1.0, 0.3, 0.4], [2.0, 1.3, 2.4]]))
         cs, cf, al = ro(np.array([[0.0, 0.0, 0.0], [0.0, 0.0, 1.0]])), ro(np.array([1.0, 0.5])), ro(np.array([0.7, 2.0]))
         r = ro(np.array([0.0, 1e-12, 0.5, 3.0]))
